@@ -106,7 +106,7 @@ def spawnCmd (threads per : Nat) (hasExport : Bool) (seed : Nat) : String :=
     a module whose export table has the given names (function of export `i` = marker `i`); every call runs
     to completion and its thread starts before the next call.
     answer: `ret r1,…` (as i32) ` ran idx:tid:arg:childOk,…` (sorted by tid) ` children N` -/
-def spawnxCmd (ncalls argbase : Nat) (names : List String) : String :=
+def spawnxCmd (childFirst : Bool) (ncalls argbase : Nat) (names : List String) : String :=
   let table : ExportTable := names.zipIdx.map fun (n, i) => (n, i)
   let entry := lookupStart table
   let has := entry.isSome
@@ -129,9 +129,15 @@ def spawnxCmd (ncalls argbase : Nat) (names : List String) : String :=
       | some s3 => s3
       | none => s2
   let final := (List.range ncalls).foldl (fun s j => runOne s (argbase + j)) Sys.initial
-  let rets := final.calls.map fun c => match c with
-    | .done _ (some t) => toString t
-    | _ => "-1"
+  -- `childFirst`: every created thread has run to completion before its spawner continues
+  let retOuts := final.calls.map fun c => match c with
+    | .done _ (some t) => spawnReturn childFirst t
+    | _ => (.val 4294967295 : Out Nat)
+  if retOuts.any (fun o => match o with | .ub _ => true | _ => false) then "ub useAfterFree" else
+  let rets := retOuts.map fun o => match o with
+    | .val 4294967295 => "-1"
+    | .val t => toString t
+    | _ => "?"
   let ran := final.started.filterMap fun j => (final.threads[j]?).map fun t =>
     s!"{entry.getD 99}:{t.tid}:{t.arg}:{if t.child < final.children then 1 else 0}"
   let showL (l : List String) := if l.isEmpty then "-" else ",".intercalate l
@@ -139,12 +145,42 @@ def spawnxCmd (ncalls argbase : Nat) (names : List String) : String :=
 
 def procCmd (ws : List String) : Option String :=
   match ws with
+  | "argsx" :: msize :: p :: b :: cP :: sP :: argc :: n :: rest => do
+    let msize ← msize.toNat?
+    let p ← p.toNat?
+    let b ← b.toNat?
+    let cP ← cP.toNat?
+    let sP ← sP.toNat?
+    let argc ← argc.toNat?
+    let arr : Option (List (List UInt8)) ← if n == "-1" then some none else do
+      let v ← rest.mapM unhex
+      if toString v.length ≠ n then none else some (some v)
+    let mem0 : Mem := List.replicate msize 0xAA
+    match argsSizesGetArr arr argc mem0 cP sP with
+    | .ub k => some (showUB k)
+    | .val (e1, m1) =>
+      let cnt := leVal ((m1.drop cP).take 4)
+      let sz := leVal ((m1.drop sP).take 4)
+      -- args_get: `for (; index < wasi.argc; index++)` over the same array
+      let v := (arr.getD []).take argc
+      if argc > (arr.getD []).length then some "ub nullDeref" else
+      match argsGet v mem0 p b with
+      | .ub k => some (showUB k)
+      | .val (e2, m2) => some s!"{e1} {cnt} {sz} {e2} {showMem m2}"
+      | _ => some "oof"
+    | _ => some "oof"
   | "spawnx" :: n :: ab :: k :: rest => do
     let n ← n.toNat?
     let ab ← ab.toNat?
     let k ← k.toNat?
     let names ← rest.mapM fun h => (unhex h).map fun bs => String.ofList (bs.map fun b => Char.ofNat b.toNat)
-    if names.length ≠ k then none else some (spawnxCmd n ab names)
+    if names.length ≠ k then none else some (spawnxCmd false n ab names)
+  | "spawnxs" :: n :: ab :: k :: rest => do
+    let n ← n.toNat?
+    let ab ← ab.toNat?
+    let k ← k.toNat?
+    let names ← rest.mapM fun h => (unhex h).map fun bs => String.ofList (bs.map fun b => Char.ofNat b.toNat)
+    if names.length ≠ k then none else some (spawnxCmd true n ab names)
   | kind :: msize :: p :: b :: cP :: sP :: n :: rest =>
     if kind == "args" || kind == "env" then do
       let msize ← msize.toNat?
